@@ -81,11 +81,22 @@ def _case(draw: Any, max_cap: int, max_ops: int) -> dict[str, Any]:
                         draw(st.sampled_from([None, [1.0, 3.0, 2.0, 5.0, 1.0, 4.0, 2.0, 3.0], [2.0, 1.0, 1.0, 3.0, 1.0, 2.0, 1.0, 1.0]]))])
         else:
             ops.append(["at", draw(st.integers(-2, cap + 2))])
+    container = draw(st.sampled_from(["list", "numpy", "numpy", "mw"]))
+    if container == "mw" and draw(st.integers(0, 2)) == 0:
+        # a window that was filled in order and has rotated, then read by the periodic feature extractor and queried
+        cap = draw(st.sampled_from([8, 12, 12, 16]))
+        per = draw(st.sampled_from([2, 4]))
+        ops = [["upd", 0, 0, "v"]] + [["upd", 1, 0, "v"] for _ in range(draw(st.integers(cap, 2 * cap + 3)))]
+        weights = draw(st.sampled_from([[1.0, 3.0, 2.0, 5.0, 1.0, 4.0, 2.0, 3.0], [2.0, 1.0, 1.0, 3.0, 1.0, 2.0, 1.0, 1.0]]))
+        for _ in range(draw(st.integers(1, 3))):
+            ops.append(["pfe", per, draw(st.integers(0, cap - 1)), draw(st.integers(1, per)), weights])
+            ops.append(["qi", None, None, "nan"])
+            ops.append(["upd", 1, 0, "v"])
     return {
         "cap": cap,
         "period_us": draw(st.sampled_from([1_000_000, 250_000, 7_000_000, 200_000, 100_000, 300_000])),
         "align_us": draw(st.sampled_from([0, 0, 300_000, 123_456_000_000])),
-        "container": draw(st.sampled_from(["list", "numpy", "numpy", "mw"])),
+        "container": container,
         "start_slot": draw(st.integers(0, 50)),
         # sample and query timestamps are expressed in this fixed-offset zone (same instants)
         "tz_offset_min": draw(st.sampled_from([0, 0, 0, 120, -330, 765])),
